@@ -110,6 +110,8 @@ def run(ctx):
     # ---- pairs within pools
     pool = []
     docs = ["1 U.S. 1; 1 U. S. 1; 1 U.S. 2; 2 U.S. 1; 1 U.S. ___; 1 U.S. ___. Id. at 3. § 5. 1 U.S. at 1; Foo, 1 U. S., at 1",
+            # placeholder pages in short forms too: each is equal only to itself
+            "Carpenter, 585 U.S., at ___ (slip op., at 11); Carpenter, 585 U.S., at ___ (slip op., at 15); 585 U.S. at __",
             "1 Minn. L. Rev. 1; 1 Minn. L. Rev. 1; 1 Minn. L. Rev. 2; 42 U.S.C. § 1983; 42 U.S.C. § 1983; 42 U.S.C. § 1984"]
     # same volume and page in sibling series of one reporter (F. / F.2d / F.3d, A. / A.2d ...): different documents
     from reporters_db import REPORTERS
@@ -143,7 +145,15 @@ def run(ctx):
                 ctx.violation(None, "citation equality and Resource equality disagree", dict(stream="pairs", a=R.describe(a), b=R.describe(b)))
         if e and type(a) is not type(b):
             ctx.violation(None, "citations of different kinds compare equal", dict(stream="pairs", a=R.describe(a), b=R.describe(b)))
-        ident = isinstance(a, (IdCitation, UnknownCitation)) or (isinstance(a, CaseCitation) and a.groups.get("page") is None)
+        # placeholder page read off the WRITTEN text (underscores where the page stands), not off groups["page"]
+        def placeholder(c):
+            if not isinstance(c, CaseCitation):
+                return False
+            pg = c.groups.get("page")
+            if pg is None or (isinstance(pg, str) and pg != "" and set(pg) <= {"_"}):
+                return True
+            return c.matched_text().rstrip().endswith("_")
+        ident = isinstance(a, (IdCitation, UnknownCitation)) or placeholder(a)
         if ident and e != (i == j):
             ctx.violation(None, "an identity-hashed citation is equal to another object (or not to itself)", dict(stream="pairs", a=R.describe(a), b=R.describe(b)))
         if isinstance(a, CaseCitation) and isinstance(b, CaseCitation) and type(a) is type(b) and a.groups.get("page") and b.groups.get("page"):
